@@ -430,6 +430,49 @@ def _listing_pages(ctx, rep):
         shutil.rmtree(base, ignore_errors=True)
 
 
+def _overwrite_then_reopen(ctx, rep):
+    """one backend instance, one key: write, open_seekable + read, overwrite with another length, open_seekable + read again"""
+    from datashard.storage_backend import LocalStorageBackend
+    base = scratch_dir("c20o-")
+
+    def seekread(b, k):
+        with b.open_seekable(k) as f:
+            end = f.seek(0, 2)
+            f.seek(0)
+            data = f.read()
+            return end, data, f.tell()
+    try:
+        n = 0
+        for la, lb in ((5, 9), (9, 5), (0, 3), (3, 0), (1 << 16, 10), (10, 1 << 16), (7, 7)):
+            for via in ("write_file", "write_json", "delete+write"):
+                n += 1
+                loc = LocalStorageBackend(os.path.join(base, f"o{n}"))
+                fake = fakes3.FakeS3()
+                s3 = fakes3.make_backend("tbl", True, fake)
+                k = "data/k.bin"
+                steps = []
+                for b in (loc, s3):
+                    out = []
+                    b.write_file(k, b"a" * la)
+                    out.append(_canon(lambda: seekread(b, k)))
+                    if via == "write_json":
+                        b.write_json(k, {"v": "x" * lb})
+                    else:
+                        if via == "delete+write":
+                            b.delete_file(k)
+                        b.write_file(k, b"b" * lb)
+                    out.append(_canon(lambda: seekread(b, k)))
+                    out.append(_canon(lambda: b.get_size(k)))
+                    steps.append(out)
+                rep.evaluations += 1
+                rep.nontrivial(["overwrite-reopen", la, lb, via])
+                if steps[0] != steps[1]:
+                    rep.violate("C20:seekable-reader-differs-after-overwrite", f"key rewritten {la}→{lb} bytes via {via}: local {str(steps[0])[:100]} vs S3 {str(steps[1])[:100]}",
+                                {"kind": "overwrite-reopen", "first": la, "second": lb, "via": via})
+    finally:
+        shutil.rmtree(base, ignore_errors=True)
+
+
 def run(ctx, model_ok):
     rep = Report()
     rep.rule = ("range reader: all seek/read programs of length ≤3 (thorough ≤4) over a 19-op alphabet × object sizes {0,1,2,5} "
@@ -441,5 +484,6 @@ def run(ctx, model_ok):
     _check_retry(ctx, rep, model_ok)
     _check_backend_faults(ctx, rep)
     _listing_pages(ctx, rep)
+    _overwrite_then_reopen(ctx, rep)
     _twin(ctx, rep, model_ok)
     return rep
